@@ -1,9 +1,10 @@
 """C18 -- disconnect semantics: wills run once, nothing leaks or misroutes.
 
 1. Coq: Properties/C18.vo (model coq/Conn/Conn.v on top of the engine model coq/Engine/*.v; proofs coq/Conn/ConnProofs.v).
-   The model carries three source-derived switches (text will-lock / will-unlock type rewrite, closed-result
-   self-forward guard); they are recomputed from server/protocol.go on every run, handed to the extracted model and
-   named in the evidence.  The theorems are stated for every value of the switches.
+   The model carries five source-derived switches (text will-lock / will-unlock type rewrite, closed-result
+   self-forward guard, closed guard of the text result path, proxy target assigned only on a successful AddProxy); they
+   are recomputed from server/protocol.go on every run (`derive_flags`), handed to the extracted model and named in the
+   evidence.  The theorems are stated for every value of the switches.
 2. Source tie, re-run every time: REAL Server.handle goroutines (checkProtocol -> BinaryServerProtocol /
    TextServerProtocol .Process -> Close) over in-memory net.Conn pairs, one real LockDB with the manual clock
    (harness/conn, injected in package server by go build -overlay).  Seeded connection lifetimes (0..6 wills -- ordinary ones
@@ -26,8 +27,9 @@
    announces that id, the census and the session table drain to zero, Close terminates.
 4. Interleavings inside one action (corpus/C18/*.race, harness action `raceclose <conn> <yield point> <action>`: <conn> ends
    at the moment a goroutine passes the yield point): beyond the model's step granularity, run on the Go code and judged
-   by the monitor only.  The one yield point used (13, between AddProxy and the assignment of the proxy target) is not in
-   /repo: proposed_fixes/c18_proxy_adopt_yield_point.diff; without it the scenarios run without the interleaving.
+   by the monitor only.  The one yield point used (13, between AddProxy and the assignment of the proxy target) is in
+   /repo/server/protocol.go since b07a861 (= proposed_fixes/c18_proxy_adopt_yield_point.diff); on a tree without it the
+   scenarios run without the interleaving.
 """
 import collections, glob, json, os, re, shutil, subprocess, sys, tempfile, time
 from tools import vlib
